@@ -36,6 +36,10 @@ type concSpec struct {
 	// Link: the other handles open the file under another name ("hard": a
 	// hard link, "sym": a symbolic link); it is the same file all the same
 	Link string `json:",omitempty"`
+	// ReadOnly: the file has no write permission bit when the handles are
+	// opened (writers with the right to ignore that, or a later chmod, can
+	// still change it: permission bits say nothing about locking)
+	ReadOnly bool `json:",omitempty"`
 }
 
 func TestC06Concurrent(t *testing.T) {
@@ -51,6 +55,7 @@ func TestC06Concurrent(t *testing.T) {
 				ProbeRow: rapid.IntRange(0, 39).Draw(t, "proberow"),
 				Spin:     rapid.SliceOfN(rapid.IntRange(0, 4000), 1, 16).Draw(t, "spin"),
 				Link:     rapid.SampledFrom([]string{"", "", "hard", "sym"}).Draw(t, "link"),
+				ReadOnly: rapid.IntRange(0, 2).Draw(t, "readonly") == 0,
 			}
 		},
 		Run: runConcurrent,
@@ -76,6 +81,11 @@ func runConcurrent(r *vt.Run, t vt.TB, s concSpec) {
 	})
 	sqdb.MustOK(r, t, "create", res, err, 4)
 	env.O.Close("cc")
+	if s.ReadOnly {
+		if err := os.Chmod(path, 0o444); err != nil {
+			r.Harness(t, "chmod: %v", err)
+		}
+	}
 
 	old := runtime.GOMAXPROCS(s.Procs)
 	defer runtime.GOMAXPROCS(old)
@@ -177,7 +187,7 @@ func runConcurrent(r *vt.Run, t vt.TB, s concSpec) {
 	}
 	wg.Wait()
 	prober.Close()
-	r.Case(s, probes > 0 && atomic.LoadInt64(&churned) > 0, fmt.Sprintf("concurrent:procs=%d", s.Procs), fmt.Sprintf("concurrent:churners=%d", s.Churners), "concurrent:other-name="+s.Link)
+	r.Case(s, probes > 0 && atomic.LoadInt64(&churned) > 0, fmt.Sprintf("concurrent:procs=%d", s.Procs), fmt.Sprintf("concurrent:churners=%d", s.Churners), "concurrent:other-name="+s.Link, fmt.Sprintf("concurrent:file-without-write-permission=%v", s.ReadOnly))
 	r.Count("concurrent:probes-inside-callbacks", probes)
 	r.Count("concurrent:reads-by-other-handles", int(atomic.LoadInt64(&churned)))
 	if harnessErr != nil {
